@@ -238,6 +238,23 @@ func c16Run(t *testing.T, seed int64, steps int, maxDepth int) {
 				pdf.AsString(gotEff[i].mb), gotRot, pdf.AsString(gotEff[i].res), pdf.AsString(p.mediaBox), wantRot, pdf.AsString(p.res))
 			return
 		}
+		if i%5 == 0 || i == len(want)-1 {
+			// the library's own page lookup sees the same effective attributes
+			_, d, err := GetPage(r, i)
+			if err != nil || d["ID"] != pdf.Integer(p.id) {
+				t.Errorf("B2-FAIL getpage %s: position %d: %v %v", desc, i, d["ID"], err)
+				return
+			}
+			gr := d["Rotate"]
+			if gr == nil {
+				gr = pdf.Integer(0)
+			}
+			if !pdf.Equal(d["MediaBox"], p.mediaBox) || !pdf.Equal(d["CropBox"], p.crop) || !pdf.Equal(gr, wantRot) {
+				t.Errorf("B2-FAIL getpage-attributes %s: page %d at position %d: MediaBox %v CropBox %v Rotate %v, given %v %v %v", desc, p.id, i,
+					pdf.AsString(d["MediaBox"]), pdf.AsString(d["CropBox"]), gr, pdf.AsString(p.mediaBox), pdf.AsString(p.crop), wantRot)
+				return
+			}
+		}
 		if p.cb != nil && *p.cb != i {
 			t.Errorf("B2-FAIL page-number-callback %s: page %d is at position %d, callback reported %d", desc, p.id, i, *p.cb)
 			return
